@@ -375,4 +375,208 @@ theorem read_range (version : Bytes) (t : ModelT) (d : Desc) (h : read version t
   simp only [pure, Except.pure, Except.ok.injEq] at h
   subst h
   exact readSubgraphs_range _ _ _ _ _ (by intro x hx; simp at hx) hr
+
+/-- a tensor with `src_tensor` points to an earlier tensor with the same quantisation, element type and range -/
+def CloneOk (ts : List TensorD) : Prop :=
+  ∀ (i : Nat) td s, ts[i]? = some td → td.src = some s → ∃ t, ts[s]? = some t ∧ td.quant = t.quant ∧ td.dtype = t.dtype ∧ td.range = t.range
+
+theorem cloneOk_append (ts : List TensorD) (c : TensorD) (h : CloneOk ts)
+    (hc : ∀ s, c.src = some s → ∃ t, ts[s]? = some t ∧ c.quant = t.quant ∧ c.dtype = t.dtype ∧ c.range = t.range) : CloneOk (ts ++ [c]) := by
+  intro i td s hi hs
+  by_cases hlt : i < ts.length
+  · rw [List.getElem?_append_left hlt] at hi
+    obtain ⟨t, ht, r⟩ := h i td s hi hs
+    exact ⟨t, by rw [List.getElem?_append_left (List.getElem?_eq_some_iff.mp ht).1]; exact ht, r⟩
+  · have : i = ts.length := by
+      have := (List.getElem?_eq_some_iff.mp hi).1
+      simp at this; omega
+    subst this
+    simp at hi
+    subst hi
+    obtain ⟨t, ht, r⟩ := hc s hs
+    exact ⟨t, by rw [List.getElem?_append_left (List.getElem?_eq_some_iff.mp ht).1]; exact ht, r⟩
+
+theorem cloneReshape_src (ts : List TensorD) (src : Nat) (r : Option (List Nat)) (c : TensorD) (h : cloneReshape ts src r = .ok c) :
+    c.src = some src ∧ ∃ t, ts[src]? = some t ∧ c.quant = t.quant ∧ c.dtype = t.dtype ∧ c.range = t.range := by
+  unfold cloneReshape at h
+  cases ht : ts[src]? with
+  | none => simp [ht, bind, Except.bind, throw, throwThe, MonadExceptOf.throw] at h
+  | some t =>
+    simp only [ht, bind, Except.bind, pure, Except.pure] at h
+    cases r with
+    | none =>
+      simp only [Except.ok.injEq] at h
+      subst h; exact ⟨rfl, t, rfl, rfl, rfl, rfl⟩
+    | some r =>
+      simp only at h
+      split at h
+      · simp at h
+      · split at h
+        · simp at h
+        · split at h
+          · simp [throw, throwThe, MonadExceptOf.throw] at h
+          · simp only [Except.ok.injEq] at h
+            subst h; exact ⟨rfl, t, rfl, rfl, rfl, rfl⟩
+
+theorem cloneOk_append_clone (ts : List TensorD) (src : Nat) (r : Option (List Nat)) (c : TensorD) (h : CloneOk ts)
+    (hc : cloneReshape ts src r = .ok c) : CloneOk (ts ++ [c]) := by
+  obtain ⟨h1, t, h2⟩ := cloneReshape_src ts src r c hc
+  refine cloneOk_append ts c h ?_
+  intro s hs
+  rw [h1] at hs
+  obtain rfl := Option.some.inj hs
+  exact ⟨t, h2⟩
+
+theorem biasClone_cloneOk (ts : List TensorD) (ins : List (Option Nat)) (r : List TensorD × List (Option Nat))
+    (hts : CloneOk ts) (h : biasClone ts ins = .ok r) : CloneOk r.1 := by
+  unfold biasClone at h
+  split at h
+  · split at h
+    · simp [throw, throwThe, MonadExceptOf.throw] at h
+    · split at h
+      · obtain ⟨cb, hcb, h⟩ := bind_ok h
+        simp only [pure, Except.pure, Except.ok.injEq] at h
+        subst h
+        exact cloneOk_append_clone _ _ _ _ hts hcb
+      · simp only [pure, Except.pure, Except.ok.injEq] at h
+        subst h; exact hts
+  · simp only [pure, Except.pure, Except.ok.injEq] at h
+    subst h; exact hts
+
+theorem cloneStep_cloneOk (op : OpInfo) (ts : List TensorD) (ins : List (Option Nat)) (r : List TensorD × List (Option Nat))
+    (hts : CloneOk ts) (h : cloneStep op ts ins = .ok r) : CloneOk r.1 := by
+  unfold cloneStep at h
+  split at h
+  · split at h
+    · simp [throw, throwThe, MonadExceptOf.throw] at h
+    · simp [throw, throwThe, MonadExceptOf.throw] at h
+    · split at h
+      · simp [throw, throwThe, MonadExceptOf.throw] at h
+      · split at h
+        · obtain ⟨c, hc, h⟩ := bind_ok h
+          exact biasClone_cloneOk _ _ _ (cloneOk_append_clone _ _ _ _ hts hc) h
+        · simp only [pure, Except.pure, Except.ok.injEq] at h
+          subst h; exact hts
+  · simp only [pure, Except.pure, Except.ok.injEq] at h
+    subst h; exact hts
+
+theorem virtualStep_cloneOk (code : RCode) (k : Nat) (ts : List TensorD) (outs : List (Option Nat))
+    (hts : CloneOk ts) : CloneOk (virtualStep code k ts outs).1 := by
+  unfold virtualStep
+  split
+  · exact cloneOk_append ts _ hts (by intro s hs; simp [virtualTensor] at hs)
+  · exact hts
+
+theorem parseOperator_cloneOk (codes : List RCode) (base n : Nat) (ts : List TensorD) (k : Nat) (o : OperatorT)
+    (r : ROp × List TensorD × Option Nat) (hts : CloneOk ts) (h : parseOperator codes base n ts k o = .ok r) : CloneOk r.2.1 := by
+  unfold parseOperator at h
+  obtain ⟨code, _, h⟩ := bind_ok h
+  obtain ⟨ins, _, h⟩ := bind_ok h
+  obtain ⟨outs, _, h⟩ := bind_ok h
+  obtain ⟨inter, _, h⟩ := bind_ok h
+  obtain ⟨fo, _, h⟩ := bind_ok h
+  obtain ⟨ins1, _, h⟩ := bind_ok h
+  obtain ⟨c, hc, h⟩ := bind_ok h
+  simp only [pure, Except.pure, Except.ok.injEq] at h
+  subst h
+  exact cloneStep_cloneOk _ _ _ _ (virtualStep_cloneOk code k ts outs hts) hc
+
+theorem parseOperators_cloneOk (codes : List RCode) (base n : Nat) : ∀ (ops : List OperatorT) (k : Nat) (ts : List TensorD)
+    (r : List ROp × List TensorD × List Nat), CloneOk ts → parseOperators codes base n ops k ts = .ok r → CloneOk r.2.1
+  | [], k, ts, r, hts, h => by
+    simp [parseOperators, pure, Except.pure] at h
+    subst h; exact hts
+  | o :: rest, k, ts, r, hts, h => by
+    unfold parseOperators at h
+    obtain ⟨r1, h1, h⟩ := bind_ok h
+    obtain ⟨rs, h2, h⟩ := bind_ok h
+    simp only [pure, Except.pure, Except.ok.injEq] at h
+    subst h
+    exact parseOperators_cloneOk codes base n rest (k + 1) r1.2.1 rs (parseOperator_cloneOk _ _ _ _ _ _ _ hts h1) h2
+
+theorem parseTensor_src (bufs : List (Option Data)) (t : TensorT) (td : TensorD) (h : parseTensor bufs t = .ok td) : td.src = none := by
+  unfold parseTensor at h
+  obtain ⟨row, _, h⟩ := bind_ok h
+  obtain ⟨buf, _, h⟩ := bind_ok h
+  obtain ⟨_, _, h⟩ := bind_ok h
+  simp only [pure, Except.pure, Except.ok.injEq] at h
+  subst h; rfl
+
+theorem cloneOk_append_plain (ts : List TensorD) : ∀ (own : List TensorD), CloneOk ts → (∀ x ∈ own, x.src = none) → CloneOk (ts ++ own)
+  | [], h, _ => by simpa using h
+  | x :: rest, h, hs => by
+    have h1 : CloneOk (ts ++ [x]) := cloneOk_append ts x h (by intro s hsx; rw [hs x (List.mem_cons_self ..)] at hsx; simp at hsx)
+    have := cloneOk_append_plain (ts ++ [x]) rest h1 (fun y hy => hs y (List.mem_cons_of_mem _ hy))
+    simpa using this
+
+theorem readSubgraph_cloneOk (codes : List RCode) (bufs : List (Option Data)) (ts : List TensorD) (sg : SubGraphT)
+    (r : SubgraphD × List TensorD) (hts : CloneOk ts) (h : readSubgraph codes bufs ts sg = .ok r) : CloneOk r.2 := by
+  unfold readSubgraph at h
+  obtain ⟨own, hown, h⟩ := bind_ok h
+  obtain ⟨po, hpo, h⟩ := bind_ok h
+  obtain ⟨_, _, h⟩ := bind_ok h
+  obtain ⟨_, _, h⟩ := bind_ok h
+  obtain ⟨_, _, h⟩ := bind_ok h
+  obtain ⟨_, _, h⟩ := bind_ok h
+  simp only [pure, Except.pure, Except.ok.injEq] at h
+  subst h
+  refine parseOperators_cloneOk _ _ _ _ _ _ _ (cloneOk_append_plain ts own hts ?_) hpo
+  intro x hx
+  obtain ⟨j, hj⟩ := List.getElem?_of_mem hx
+  obtain ⟨l, f⟩ := mapM_ok _ _ _ hown
+  have hjl : j < sg.tensors.length := by rw [← l]; exact (List.getElem?_eq_some_iff.mp hj).1
+  obtain ⟨b, hb1, hb2⟩ := f j _ (List.getElem?_eq_getElem hjl)
+  rw [hj] at hb1
+  rw [Option.some.inj hb1]
+  exact parseTensor_src _ _ _ hb2
+
+theorem readSubgraphs_cloneOk (codes : List RCode) (bufs : List (Option Data)) : ∀ (sgs : List SubGraphT) (ts : List TensorD)
+    (r : List SubgraphD × List TensorD), CloneOk ts → readSubgraphs codes bufs sgs ts = .ok r → CloneOk r.2
+  | [], ts, r, hts, h => by
+    simp [readSubgraphs, pure, Except.pure] at h
+    subst h; exact hts
+  | sg :: rest, ts, r, hts, h => by
+    unfold readSubgraphs at h
+    obtain ⟨r1, h1, h⟩ := bind_ok h
+    obtain ⟨rs, h2, h⟩ := bind_ok h
+    simp only [pure, Except.pure, Except.ok.injEq] at h
+    subst h
+    exact readSubgraphs_cloneOk codes bufs rest r1.2 rs (readSubgraph_cloneOk _ _ _ _ _ hts h1) h2
+
+theorem read_cloneOk (version : Bytes) (t : ModelT) (d : Desc) (h : read version t = .ok d) : CloneOk d.tensors := by
+  unfold read at h
+  obtain ⟨codes, _, h⟩ := bind_ok h
+  obtain ⟨r, hr, h⟩ := bind_ok h
+  obtain ⟨metas, _, h⟩ := bind_ok h
+  simp only [pure, Except.pure, Except.ok.injEq] at h
+  subst h
+  exact readSubgraphs_cloneOk _ _ _ _ _ (by intro i td s hi; simp at hi) hr
+
+theorem read_metadata_bytes (version : Bytes) (t : ModelT) (d : Desc) (h : read version t = .ok d) : ∀ md ∈ d.metadata, md.nameIsBytes = true := by
+  unfold read at h
+  obtain ⟨codes, _, h⟩ := bind_ok h
+  obtain ⟨r, hr, h⟩ := bind_ok h
+  obtain ⟨metas, hm, h⟩ := bind_ok h
+  simp only [pure, Except.pure, Except.ok.injEq] at h
+  subst h
+  unfold readMetadata at hm
+  obtain ⟨rm, hrm, hm⟩ := bind_ok hm
+  simp only [pure, Except.pure, Except.ok.injEq] at hm
+  subst hm
+  intro md hmd
+  simp only [List.mem_filterMap, id] at hmd
+  obtain ⟨x, hx, hxe⟩ := hmd
+  obtain ⟨j, hj⟩ := List.getElem?_of_mem hx
+  obtain ⟨l, f⟩ := mapM_ok _ _ _ hrm
+  have hjl : j < t.metadata.length := by rw [← l]; exact (List.getElem?_eq_some_iff.mp hj).1
+  obtain ⟨b, hb1, hb2⟩ := f j _ (List.getElem?_eq_getElem hjl)
+  rw [hj] at hb1
+  obtain rfl := Option.some.inj hb1
+  subst hxe
+  split at hb2
+  · simp [pure, Except.pure] at hb2
+  · split at hb2
+    · simp only [pure, Except.pure, Except.ok.injEq] at hb2
+      rw [← Option.some.inj hb2]
+    · simp [throw, throwThe, MonadExceptOf.throw] at hb2
 end VelaVerif.Tflite.Reader
